@@ -261,7 +261,7 @@ Proof.
                (f_cat f3 = false -> (state_count f3 <= length s2)%nat) /\
                (f_order f3 = true -> f_order f = true)).
   { unfold f3. destruct (length s2 <? state_count f2)%nat eqn:E.
-    - cbn. repeat split; try congruence; try discriminate.
+    - cbn [force_cat f_order f_res f_n32 f_stripe f_nosize f_cat f_rle f_pack state_count]. repeat split; try congruence; try discriminate.
     - apply Nat.ltb_ge in E. repeat split; try congruence; try (intros _; exact E). }
   destruct H3 as [S3 [N3 [P3 [R3 [C3 [L3 O3]]]]]].
   clearbody f3.
